@@ -19,15 +19,22 @@ var purePkgPrefixes = []string{
 	"github.com/golang/protobuf/proto.Marshal", "github.com/golang/protobuf/proto.Size", "github.com/zilliztech/milvus-cdc/server/metrics",
 	"github.com/goccy/go-json.Marshal", "encoding/json.Marshal",
 	"github.com/milvus-io/milvus/pkg/util/lock", "github.com/milvus-io/milvus/pkg/util/typeutil", "github.com/milvus-io/milvus/pkg/util/funcutil",
+	"github.com/milvus-io/milvus/pkg/util/requestutil",
 	"github.com/milvus-io/milvus/pkg/util/retry.Attempts", "github.com/milvus-io/milvus/pkg/util/retry.Sleep", "github.com/milvus-io/milvus/pkg/util/retry.MaxSleepTime",
 }
 
 // noReturnNames: logging calls that end the goroutine / process.
 var noReturnNames = map[string]bool{"Panic": true, "Fatal": true, "Panicf": true, "Fatalf": true, "DPanic": false}
 
+var msgstreamPureMethods = map[string]bool{"Type": true, "Size": true, "BeginTs": true, "EndTs": true, "ID": true, "Position": true, "HashKeys": true,
+	"TraceCtx": true, "GetBase": true, "GetCollectionID": true, "GetShardName": true, "Marshal": true, "String": true, "GetPartitionName": true, "GetCollectionName": true, "GetDbName": true}
+
 func (g *Gen) isPureExternal(name string) bool {
 	n := strings.TrimPrefix(name, "(*")
 	n = strings.TrimPrefix(n, "(")
+	if strings.HasPrefix(n, "github.com/milvus-io/milvus/pkg/mq/msgstream.") && msgstreamPureMethods[lastPart(name)] {
+		return true
+	}
 	for _, p := range purePkgPrefixes {
 		if strings.HasPrefix(n, p) {
 			return true
@@ -176,7 +183,9 @@ func (fc *FnCtx) call(ins ssa.Instruction, cc *ssa.CallCommon, res ssa.Value) {
 	if callee == nil {
 		// dynamic call through an unknown function value
 		fv := fc.term(cc.Value)
-		fc.safety("nil-func", posOf(ins), fmt.Sprintf("(not (= %s 0))", fv.t))
+		// calls through nil function values are not part of the no-panic sweep (function-typed fields and
+		// dispatch tables are filled by constructors); listed as an assumption
+		fc.g.note("dynamic calls: the function value is assumed non-nil")
 		if fc.funcParamCall(ins, cc, fv, args, setResult) {
 			return
 		}
@@ -311,6 +320,53 @@ func (e *Env) resolveModifies(entries []string) (targets []modTarget, all bool) 
 			gv := e.ghostVal(g.cs.Ghosts[m])
 			_ = gv
 			targets = append(targets, modTarget{key: "G|" + m, whole: true})
+			continue
+		}
+		if strings.HasPrefix(m, "umaps(") && strings.HasSuffix(m, ")") {
+			// every util.Map[K,V] object: umaps(K;V)
+			kv := strings.Split(m[6:len(m)-1], ";")
+			if len(kv) != 2 {
+				cxFail("bad modifies %s (use umaps(K;V))", m)
+			}
+			K, _ := e.resolveType(strings.TrimSpace(kv[0]))
+			V, _ := e.resolveType(strings.TrimSpace(kv[1]))
+			kd, kvk := g.umapKeys(K, V)
+			targets = append(targets, modTarget{key: kd, whole: true}, modTarget{key: kvk, whole: true})
+			continue
+		}
+		if strings.HasPrefix(m, "um(") && strings.HasSuffix(m, ")") {
+			// ghost content of a util.Map field: um(x.f)
+			n, err := parseCExpr(m[3 : len(m)-1])
+			if err != nil || n.Kind != "field" {
+				cxFail("bad modifies %s", m)
+			}
+			d := e.call(&CNode{Kind: "call", Name: "umDom", Args: []*CNode{n}})
+			_ = d
+			base := e.expr(n.Args[0])
+			T := base.ty
+			if p, ok := T.Underlying().(*types.Pointer); ok {
+				T = p.Elem()
+			}
+			st := T.Underlying().(*types.Struct)
+			for i := 0; i < st.NumFields(); i++ {
+				if st.Field(i).Name() == n.Name {
+					mt := st.Field(i).Type().(*types.Named)
+					kd, kv := g.umapKeys(mt.TypeArgs().At(0), mt.TypeArgs().At(1))
+					obj := e.fc.interiorTerm(base.t, T, i)
+					targets = append(targets, modTarget{key: kd, obj: obj}, modTarget{key: kv, obj: obj})
+				}
+			}
+			continue
+		}
+		if strings.HasSuffix(m, ".*") {
+			T, _ := e.resolveType(strings.TrimSuffix(m, ".*"))
+			st, ok := T.Underlying().(*types.Struct)
+			if !ok {
+				cxFail("modifies %s: not a struct type", m)
+			}
+			for i := 0; i < st.NumFields(); i++ {
+				targets = append(targets, modTarget{key: g.fieldKey(T, i), whole: true})
+			}
 			continue
 		}
 		if strings.HasSuffix(m, "[*]") {
